@@ -5,7 +5,7 @@ patch="$1"; shift
 git -C /repo apply "$patch" || exit 2
 mkdir -p /verif/work/mutant_evidence
 for p in "$@"; do
-  VERIF_EVIDENCE_DIR=/verif/work/mutant_evidence /verif/check "$p" 2>&1 | grep -v "unshown: corr\|unshown: exec" | tail -3
+  VERIF_EVIDENCE_DIR=/verif/work/mutant_evidence /verif/check "$p" 2>&1 | grep -E "^(VIOLATION|FAIL|ok) "
 done
 git -C /repo checkout -- .
 git -C /repo status --short
